@@ -614,6 +614,55 @@ pub fn case(ctx: &mut CaseCtx) {
         }
         ctx.nontrivial(&format!("{:?}|{:?}|{}", gs, f.world, f.class));
     }
+    // ---- a fault that exists only in the transitive closure: X -> Y is permitted, Y -> Z makes Z an (indirect)
+    // ancestor of X of a type X's type can never be a member of.  X is taken, closed, out of a schema-less store
+    // and submitted alone.
+    {
+        let acts: Vec<Uid> = gs.actions.iter().map(|a| a.uid()).collect();
+        let mut cands: Vec<(Uid, String, String)> = vec![];
+        for (u, _) in w.entities.iter().filter(|(u, _)| !acts.contains(u)) {
+            if let Some(et) = gs.entity_type(&u.ty) {
+                if et.enum_ids.is_some() {
+                    continue;
+                }
+                for y_ty in et.member_of.iter().filter(|t| gs.entity_type(t).map(|e| e.enum_ids.is_none()).unwrap_or(false)) {
+                    for z in gs.entity_types.iter().filter(|z| z.enum_ids.is_none() && !gs.type_can_descend(&u.ty, &z.name)) {
+                        cands.push((u.clone(), y_ty.clone(), z.name.clone()));
+                    }
+                }
+            }
+        }
+        if !cands.is_empty() {
+            let (x, y_ty, z_ty) = ctx.rng.pick_clone(&cands);
+            let (y, z) = (Uid::new(&y_ty, "zz-mid"), Uid::new(&z_ty, "zz-top"));
+            let mut gx = w.entities[&x].clone();
+            gx.parents = [y.clone()].into_iter().collect();
+            let mut gy = GEntity::default();
+            gy.parents = [z.clone()].into_iter().collect();
+            if let (Ok(ex), Ok(ey)) = (bridge::entity(&x, &gx), bridge::entity(&y, &gy)) {
+                if let Ok(lax) = Entities::from_entities(vec![ex, ey], None) {
+                    if let Some(closed_x) = lax.get(&bridge::uid(&x)).cloned() {
+                        let has_z = lax.ancestors(&bridge::uid(&x)).map(|mut it| it.any(|a| bridge::uid_back(a) == z)).unwrap_or(false);
+                        if has_z {
+                            let class = "ancestor-of-non-permitted-type:indirect-only";
+                            let runs: Vec<(&str, bool)> = vec![
+                                ("Entities::from_entities(closed entity)", Entities::from_entities(vec![closed_x.clone()], Some(&schema)).is_ok()),
+                                ("Entities::add_entities(closed entity)", Entities::empty().add_entities(vec![closed_x.clone()], Some(&schema)).is_ok()),
+                                ("Entities::upsert_entities(closed entity)", Entities::empty().upsert_entities(vec![closed_x.clone()], Some(&schema)).is_ok()),
+                            ];
+                            for (ep, ok) in runs {
+                                ctx.count(&format!("cell:{class}|{ep}"));
+                                if ok {
+                                    ctx.violation(&format!("C11:fault-accepted:{class}:{ep}"), format!("an entity whose only fault is an indirect ancestor of a non-permitted type ({:?} -> {:?} -> {:?}) is accepted by {}", x, y, z, ep), detail(&w, json!({"x": format!("{:?}", x), "y": format!("{:?}", y), "z": format!("{:?}", z)})));
+                                }
+                            }
+                            ctx.nontrivial(&format!("{:?}|indirect|{:?}{:?}{:?}", gs, x, y, z));
+                        }
+                    }
+                }
+            }
+        }
+    }
     ctx.sample(|| json!({"schema": gs.to_cedar(&PrintStyle{unqualified:false, loose_json:false}), "entities": render::entities_json(&w), "context": render::context_json(&w), "faults_injected": injected}));
     let _ = kind_name(&GType::Bool);
 }
